@@ -822,6 +822,11 @@ func Run(t *testing.T, sc Scenario) (h *History) {
 			}
 		}
 		w.srv = jrpc2.NewServer(assignFunc(w.assign), opts)
+		// the options belong to the caller again: what happens to them now is none
+		// of this server's business (a caller that reuses one struct for several servers)
+		opts.Concurrency += 7
+		opts.AllowPush = !opts.AllowPush
+		opts.DisableBuiltin = !opts.DisableBuiltin
 		w.connect()
 		w.settle()
 		for i, st := range sc.Steps {
